@@ -34,6 +34,8 @@ type WTScen struct {
 	ReadLimit  int64     `json:"readLimit,omitempty"`
 	FailAt     int64     `json:"failAt"` // <0: never; else the stream reports an error once that many bytes were consumed
 	FailKind   string    `json:"failKind,omitempty"`
+	FailOnce   bool      `json:"failOnce,omitempty"`  // the stream error is transient (a deadline): the stream itself goes on afterwards
+	StaleRead  bool      `json:"staleRead,omitempty"` // after moving on to the next message the application reads the previous message's reader again
 	EOF        bool      `json:"eof"`               // the stream ends after its bytes (else the reader is stopped by the harness)
 	Consume    []int     `json:"consume,omitempty"` // per message: -1 read all, k>=0 read at most k bytes then move on
 	ReadChunk  int       `json:"readChunk,omitempty"`
@@ -129,6 +131,7 @@ type wtFam struct {
 	readerDone bool
 	writerDone bool
 	panicMsg   string
+	staleN     int
 }
 
 func init() {
@@ -184,6 +187,7 @@ func (f *wtFam) setup(w *World) {
 		default:
 			a2b.failErr = errReset
 		}
+		a2b.failOnce = sc.FailOnce
 	}
 	wstream := &simStream{in: b2a, out: a2b, capture: &f.wire}
 	rstream := &simStream{in: a2b, out: b2a}
@@ -358,8 +362,17 @@ func (f *wtFam) readAll(w *World, c *webtrans.Conn, sc *WTScen) {
 		chunk = 512
 	}
 	extra := -1
+	var prev io.Reader
 	for i := 0; ; i++ {
 		mt, r, err := c.NextReader()
+		if err == nil && prev != nil && sc.StaleRead {
+			// a reader of an earlier message must not hand out anything of the current one
+			sb := make([]byte, 16)
+			if n, _ := prev.Read(sb); n > 0 {
+				f.staleN += n
+			}
+		}
+		prev = r
 		if err != nil {
 			f.nextErr = append(f.nextErr, err.Error())
 			w.rec("", "next-err", err.Error(), int64(i))
@@ -632,6 +645,9 @@ func (f *wtFam) totality(l *vlist, sc *WTScen) {
 			l.add("truncation-is-unexpected-eof", "", fmt.Sprintf("message %d: stream ended inside the frame, reader error is %q", i, g.Err))
 		}
 	}
+	if f.staleN > 0 {
+		l.add("no-more-than-declared", "stale-reader", fmt.Sprintf("the reader of an earlier message returned %d more bytes after the application had moved on to the next message", f.staleN))
+	}
 	// limit violation: ErrReadLimit reported and the session closed
 	for _, m := range model {
 		if m.overLimit {
@@ -813,6 +829,7 @@ func genTotal(g *G, ws *WTScen, nmsg int) {
 	if g.p(0.5) {
 		ws.Consume = []int{g.pick(-1, 0, 1, 3, 100), g.pick(-1, -1, 0, 50)}
 	}
+	ws.StaleRead = g.p(0.4)
 	k := int(genRunIndex)
 	switch x := g.Float64(); {
 	case x < 0.35: // truncation at an enumerated offset
@@ -822,6 +839,7 @@ func genTotal(g *G, ws *WTScen, nmsg int) {
 	case x < 0.6: // stream error at an enumerated read offset
 		ws.FailAt = int64(k % (len(valid) + 1))
 		ws.FailKind = g.picks("reset", "timeout", "eof")
+		ws.FailOnce = ws.FailKind == "timeout" && g.p(0.5)
 	case x < 0.8: // mutation
 		b := append([]byte(nil), valid...)
 		n := g.rng(1, 3)
